@@ -371,8 +371,8 @@ func (t *Teamserver) Start() {
 			HandlerData.HostRotation = Data["HostRotation"].(string)
 			HandlerData.PortBind = Data["PortBind"].(string)
 			HandlerData.UserAgent = Data["UserAgent"].(string)
-			HandlerData.Headers = storedList(Data["Headers"].(string))
-			HandlerData.Uris = storedList(Data["Uris"].(string))
+			HandlerData.Headers = storedList(Data["Headers"])
+			HandlerData.Uris = storedList(Data["Uris"])
 			HandlerData.BehindRedir = t.Profile.Config.Demon.TrustXForwardedFor
 			HandlerData.PortConn, _ = Data["PortConn"].(string)
 			HandlerData.HostHeader, _ = Data["HostHeader"].(string)
@@ -393,21 +393,7 @@ func (t *Teamserver) Start() {
 				HandlerData.Secure = true
 			}
 
-			if Data["Response Headers"] != nil {
-
-				switch Data["Response Headers"].(type) {
-
-				case string:
-					HandlerData.Response.Headers = storedList(Data["Response Headers"].(string))
-					break
-
-				default:
-					for _, s := range Data["Response Headers"].([]interface{}) {
-						HandlerData.Response.Headers = append(HandlerData.Response.Headers, s.(string))
-					}
-
-				}
-			}
+			HandlerData.Response.Headers = storedList(Data["Response Headers"])
 
 			/* also ignore if we already have a listener running */
 			if err := t.ListenerStart(handlers.LISTENER_HTTP, HandlerData); err != nil && err.Error() != "listener already exists" {
@@ -511,14 +497,29 @@ func (t *Teamserver) Start() {
 	<-ServerFinished
 }
 
-// storedList splits a list of a stored listener config (its items joined by ", "). An empty
-// list is stored as the empty string.
-func storedList(List string) []string {
-	if List == "" {
-		return nil
+// storedList reads a list of a stored listener config: an array of strings, or, in a
+// database written before lists were stored as arrays, its items joined by ", " (an empty
+// list is the empty string).
+func storedList(List any) []string {
+	var Items []string
+
+	switch List := List.(type) {
+
+	case string:
+		if List != "" {
+			Items = strings.Split(List, ", ")
+		}
+
+	case []any:
+		for _, Item := range List {
+			if s, ok := Item.(string); ok {
+				Items = append(Items, s)
+			}
+		}
+
 	}
 
-	return strings.Split(List, ", ")
+	return Items
 }
 
 // storedKillDate reads the kill date of a stored listener config. It is a 64 bit integer
